@@ -18,6 +18,8 @@ pub enum MVal {
     Ref(usize),
     /// f64 element (bit pattern); equality is IEEE equality
     F(u64),
+    /// `u64?` element
+    OptInt(Option<u64>),
 }
 
 pub type ListId = usize;
@@ -134,6 +136,7 @@ fn dbg_val(heap: &Heap, v: &MVal, out: &mut String) {
         MVal::Unit => out.push_str("Zst"),
         MVal::Ref(l) => dbg_list(heap, *l, out),
         MVal::F(b) => out.push_str(&format!("{:?}", f64::from_bits(*b))),
+        MVal::OptInt(o) => out.push_str(&format!("{o:?}")),
     }
 }
 pub fn dbg_list(heap: &Heap, l: ListId, out: &mut String) {
